@@ -201,13 +201,13 @@ pub fn process(
         }
         Operation::Mulsu | Operation::Fmul | Operation::Fmuls | Operation::Fmulsu => {
             let d = op_args[0].get_r8(constants)?;
-            if d.number() < 16 {
+            if d.number() < 16 || d.number() > 23 {
                 bail!("{:?} can only use registers (r16 - r23)", op);
             }
             opcode |= (d.number() & 0x07) << 4;
 
             let r = op_args[1].get_r8(constants)?;
-            if r.number() < 16 {
+            if r.number() < 16 || r.number() > 23 {
                 bail!("{:?} can only use registers (r16 - r23)", op);
             }
             opcode |= r.number() & 0x07;
